@@ -114,6 +114,30 @@ CLAIMED = {
         "(value-caused rejections are recognised by message and skipped).",
         "DESIGN.md §7 C13",
     ),
+    "C10": (
+        "Lean 4 round-trip theorems for text (five-pass unescape over the extracted escape table, block induction), strings (single pass, both quotes), integers, booleans + differential test: generated trees printed in 24 styles and parsed by the real ANTLR parser, lexer-error audit of accepted strings, verbatim CLI output",
+        "Proved in Lean over the escape table re-extracted from parser.py each run: unescape(escText s) = s for every "
+        "text not ending in a backslash (and a witness that the condition is needed), unescape_string(escStr q s) = s "
+        "for every string and both quotes, int literals up to the conversion limit, both boolean spellings, any print "
+        "style. The tree-level print/parse round trip is checked by correspondence (not yet a theorem): 30 000 "
+        "generated trees per run are printed by the model's printer and by an independent Python printer, parsed by "
+        "the real parser and by the model, and compared with the tree; accepted strings are re-lexed with a collecting "
+        "listener (nothing dropped); CLI runs check that text+argument reach the generated name verbatim.",
+        "Trusted: Lean kernel; ANTLR runtime and generated lexer/parser (modelled by hand, tied by bounded-exhaustive "
+        "and random correspondence); known finding K4 (int literals over 4300 digits).",
+        "DESIGN.md §7 C10",
+    ),
+    "C11": (
+        "Lean 4 theorems on the visitor's pipe fold (= nested contexts, for every X and any number of tags) and rejection of non-tags after a pipe + differential test of pipe/nested spellings on the real parser and renderer",
+        "Proved in Lean: the pipe fold of the visitor builds exactly the nested-context tree for every X and every "
+        "number of piped tags; each piped tag's only context is everything before it; a pipe not followed by a tag "
+        "makes the pattern unparsable at any level. That the token stream of `X|%A|%B` reaches the fold as (X, [A, B]) "
+        "is tied by correspondence: 20 000 generated (X, 1-5 tags, arguments) pairs per run are printed in both "
+        "spellings, at top level and inside a context, parsed by the real parser and by the model (equal trees), and "
+        "rendered through the real compiler with the built-in text tags (equal names).",
+        "Trusted: Lean kernel; ANTLR runtime/generated parser (modelled, tied by correspondence).",
+        "DESIGN.md §7 C11",
+    ),
 }
 
 NOT_YET = "check not built yet in this snapshot of /verif (work in progress, see DESIGN.md §7)"
